@@ -189,12 +189,12 @@ def _fix(layout):
         out = []
         for gi, g in enumerate(groups):
             g = dict(g)
-            if g["tr_sp"] in NODIR_SPELLINGS:
-                g["ns"], g["ew"] = "n", "w"
             same = g.pop("same_as", None)
             if same is not None and same < gi:
                 for k in ("twp", "ns", "rge", "ew"):
                     g[k] = out[same][k]
+            if g["tr_sp"] in NODIR_SPELLINGS:
+                g["ns"], g["ew"] = "n", "w"          # what the default directions make of it
             # a bare Twp/Rge ('154N-97W') needs an explicit 'R' for range 2, and cannot directly follow a section
             # list (its leading number would grammatically continue that list): DESIGN 3.1
             follows_sec = layout == "desc_STR" or (layout == "TR_desc_S" and gi > 0)
@@ -278,6 +278,8 @@ def validate(d):
             return False
         follows_sec = d["layout"] == "desc_STR" or (d["layout"] == "TR_desc_S" and gi > 0)
         if g["tr_sp"] == "bare" and (g["rge"] == 2 or follows_sec):
+            return False
+        if g["tr_sp"] in NODIR_SPELLINGS and (g["ns"], g["ew"]) != ("n", "w"):
             return False
         for s in g["secs"]:
             if not block_ok(s["block"]) or not s["lst"]["items"]:
